@@ -296,13 +296,22 @@ def parseBuiltin (inp : Array Nat) (fuel : Nat) (p : Pair) : PR Node :=
   | [] => .error (.panic "parse_builtin next unwrap")
   | _ => .error (.panic "parse_builtin assert")
 
+mutual
+/-- structural size of pair trees (the walk's fuel is computed from it) -/
+def pairSize : Pair → Nat
+  | .mk _ _ _ kids => 1 + pairsSize kids
+def pairsSize : List Pair → Nat
+  | [] => 0
+  | p :: ps => pairSize p + pairsSize ps
+end
+
 /-- `parse_asm`: source text (code points) to nodes. -/
 def parseAsm (text : List Nat) : PR (List Node) :=
   match Pest.parse Gen.grammar Gen.R_program text with
   | none => .error .lexer
   | some pairs =>
     let inp := text.toArray
-    let fuel := 4 * text.length + 100
+    let fuel := 4 * text.length + 100 + pairsSize pairs
     let rec go : List Pair → PR (List Node)
       | [] => .ok []
       | p :: ps =>
